@@ -8,6 +8,7 @@ import (
 	"encoding/json"
 	"fmt"
 	"runtime"
+	"strings"
 	"sync"
 
 	"verifmc/ev"
@@ -70,6 +71,7 @@ func Explore[O any](r *ev.Run, cfg Config[O]) Result {
 	type succ struct {
 		op       O
 		obs, key string
+		terminal bool
 	}
 	for depth := 0; len(frontier) > 0; depth++ {
 		if cfg.MaxDepth > 0 && depth >= cfg.MaxDepth {
@@ -99,7 +101,11 @@ func Explore[O any](r *ev.Run, cfg Config[O]) Result {
 							s = replay(cfg, n.path)
 						}
 						obs := s.Apply(op, true)
-						out[i] = append(out[i], succ{op, obs, s.Key()})
+						term := false
+						if t, ok := s.(interface{ Terminal() bool }); ok {
+							term = t.Terminal()
+						}
+						out[i] = append(out[i], succ{op, obs, s.Key(), term})
 						s.Close()
 					}
 					if len(ops) == 0 {
@@ -115,11 +121,17 @@ func Explore[O any](r *ev.Run, cfg Config[O]) Result {
 			n.obs = map[string]string{}
 			for _, sc := range succs {
 				res.Transitions++
-				n.obs[opKey(sc.op)] = sc.obs + " => " + sc.key
+				if sc.terminal {
+					// the oracle that declared the successor terminal only runs in live mode:
+					// a non-live re-execution can only be compared on the observation
+					n.obs[opKey(sc.op)] = sc.obs + " => (terminal)"
+				} else {
+					n.obs[opKey(sc.op)] = sc.obs + " => " + sc.key
+				}
 				path := append(append([]O{}, n.path...), sc.op)
 				if m, ok := nodes[sc.key]; ok {
 					res.Merges++
-					if cfg.CheckMerges && len(m.alts) < 2 && len(path) > 0 && opKey(path) != opKey(m.path) {
+					if cfg.CheckMerges && !sc.terminal && len(m.alts) < 2 && len(path) > 0 && opKey(path) != opKey(m.path) {
 						m.alts = append(m.alts, path)
 					}
 					continue
@@ -129,7 +141,11 @@ func Explore[O any](r *ev.Run, cfg Config[O]) Result {
 					continue
 				}
 				nodes[sc.key] = &node[O]{path: path}
-				nextFrontier = append(nextFrontier, sc.key)
+				if !sc.terminal {
+					// terminal states (instance dead after a panic, or property already violated
+					// on the way in) are counted but never expanded nor replayed
+					nextFrontier = append(nextFrontier, sc.key)
+				}
 				res.States++
 			}
 		}
@@ -177,9 +193,14 @@ func Explore[O any](r *ev.Run, cfg Config[O]) Result {
 						if i > 0 {
 							s = replay(cfg, j.alt)
 						}
-						got := s.Apply(op, false) + " => " + s.Key()
-						s.Close()
+						got := s.Apply(op, false)
 						want, ok := n.obs[opKey(op)]
+						if strings.HasSuffix(want, " => (terminal)") {
+							got += " => (terminal)"
+						} else {
+							got += " => " + s.Key()
+						}
+						s.Close()
 						mu.Lock()
 						res.MergeChecks++
 						if !ok || got != want {
